@@ -287,6 +287,26 @@ func runCluster(h *h3, hooks clusterHooks) *cluster {
 		h.oc.Trouble = "no metadata leader within 60 simulated seconds\n" + h.s.Dump()
 		return c
 	}
+	// the bus's own loss and delay, plus the slow replication requests of the "lagrepl" operation
+	var lagUntil time.Time
+	var lagBy time.Duration
+	bus := h.bus
+	bus.Fault = func(src *nats.Conn, dst *nats.Subscription, m *nats.Msg) int64 {
+		if src.Node() == dst.Node() {
+			return 0
+		}
+		if lagBy > 0 && time.Now().Before(lagUntil) && strings.HasSuffix(m.Subject, ".replicate") {
+			return int64(lagBy)
+		}
+		if bus.DropPerMille > 0 && h.s.Choose(1000, "drop") < bus.DropPerMille {
+			return 1
+		}
+		if bus.DelayPerMille > 0 && h.s.Choose(1000, "delay") < bus.DelayPerMille {
+			return 2 + int64(h.s.Choose(int(bus.MaxDelay/time.Millisecond)+1, "delay-ms"))*int64(time.Millisecond)
+		}
+		return 0
+	}
+	defer func() { bus.Fault = nil }()
 	var cerr error
 	h.rpc(ctl, "create", func(api *apiServer) {
 		ctx, cancel := ctxT(30 * time.Second)
@@ -457,6 +477,14 @@ func runCluster(h *h3, hooks clusterHooks) *cluster {
 		case "heal":
 			h.bus.HealAll()
 			h.s.Logf("heal")
+		case "lagrepl":
+			// For a while the followers' replication requests travel slowly (0.4 - 3 s; the order per
+			// connection is kept): a request sent to one leader reaches its successor, a leader sees progress
+			// reports that are seconds old. Everything else travels as before.
+			lagUntil = time.Now().Add(time.Duration(2+op.Arg(0, 0)%6) * time.Second)
+			lagBy = 400*time.Millisecond + time.Duration(op.Arg(1, 0)%14)*200*time.Millisecond
+			h.s.Logf("replication requests are delayed by %v until %v", lagBy, h.s.Now()+time.Until(lagUntil))
+			h.s.Count("fault.replication_requests_slow")
 		case "stall":
 			n := h.nodes[int(op.Arg(0, 0))%nn]
 			if n.up {
@@ -490,6 +518,7 @@ func runCluster(h *h3, hooks clusterHooks) *cluster {
 	h.bus.HealAll()
 	h.cluster.Reevaluate()
 	h.bus.DropPerMille, h.bus.DelayPerMille = 0, 0
+	lagBy = 0
 	for _, n := range h.nodes {
 		if !n.up {
 			n.restarts++
